@@ -427,6 +427,16 @@ func (s *stream) wait() {
 func (s *stream) Close(closeWithCancel bool) {
 	s.closeWithCancel = closeWithCancel
 
+	if s.observers == nil {
+		// already closed by a rebalance that has not reopened yet: keep it closed
+		s.rebalanceStateLock.Lock()
+		if s.rebalanceTimer != nil {
+			s.rebalanceTimer.Stop()
+		}
+		s.rebalanceStateLock.Unlock()
+		return
+	}
+
 	s.eventHandler.BeforeStreamStop()
 
 	if !s.config.RollbackMitigation.Disabled {
